@@ -257,6 +257,9 @@ class Check(PropertyCheck):
         if upd is None:
             return res
         g = upd.job_shop_graph
+        from impl_ext import graph_lookup_problems
+        for msg in graph_lookup_problems(g)[:2]:
+            res.append(("lookup", f"residual graph: {msg}"))
         d = impl.dispatcher
         v = oracles.View(impl.instance, d.schedule.schedule)
         ft = impl.filter_tokens
